@@ -141,7 +141,8 @@ def _snapshot(state, a=None):
   return d
 
 
-def run_config(ctx, r, L, R, order, scheds, nsteps, *, use_eval, random_actions, gains=None, label='', done_dtype=None, noep=False):
+def run_config(ctx, r, L, R, order, scheds, nsteps, *, use_eval, random_actions, gains=None, label='', done_dtype=None, noep=False,
+               eager=False):
   """Runs one wrapper stack on a batch whose member i follows scheds[i]; returns per-member traces."""
   import jax
   import jax.numpy as jp
@@ -200,7 +201,24 @@ def run_config(ctx, r, L, R, order, scheds, nsteps, *, use_eval, random_actions,
     else:
       a = policy_np(state.obs)
     acts.append(a)
-    state = step(state, jp.asarray(a))
+    if eager:
+      # uncompiled execution: the step must be a function of (state, action) -- calling it twice on the same state and once
+      # compiled gives three equal results.  (Whether the info dict of the state passed in is left untouched is NOT compared:
+      # AutoResetWrapper zeroes info['steps'] of a finished input state in place, which no result depends on.)
+      e1 = env.step(state, jp.asarray(a))
+      e2 = env.step(state, jp.asarray(a))
+      c1 = step(state, jp.asarray(a))
+      snaps = [_snapshot(x, a) for x in (e1, e2, c1)]
+      for name, u, v in (('eager twice', snaps[0], snaps[1]), ('eager vs compiled', snaps[0], snaps[2])):
+        diff = [k for k in u if not np.array_equal(u[k], v[k], equal_nan=True)]
+        if diff:
+          ctx.violation(f'{label} ({order}, L={L} R={R}) step {i}: {name}: fields {diff} differ: '
+                        f'{[(np.asarray(u[k]).tolist(), np.asarray(v[k]).tolist()) for k in diff[:2]]}',
+                        {'L': L, 'R': R, 'order': order, 'step': i, 'scheds': scheds}, {'call': order, 'predicate': 'eager_' + name.split()[0]})
+          return []
+      state = e1
+    else:
+      state = step(state, jp.asarray(a))
     rec.append(_snapshot(state, a))
   # the same history through acting.generate_unroll (transitions must chain)
   if not random_actions:
